@@ -25,7 +25,7 @@ PLAN = {'quick': {'gen': 8}, 'thorough': {'gen': 16, 'tests': 1, 'docs': 1}}
 REQUIRED_BUCKETS = ['range:identical', 'range:nested', 'range:overlap', 'range:disjoint', 'grid:uniform', 'grid:nonuniform',
                     'op:add', 'op:subtract', 'op:multiply', 'op:divide', 'op:power', 'sampling:min', 'sampling:left',
                     'sampling:right', 'sampling:float', 'fill:0', 'fill:nonzero', 'fill:pair', 'unit:nm', 'unit:um', 'unit:m',
-                    'unit:angstrom', 'unit:mixed', 'scalar', 'vector', 'method:quadratic', 'method:cubic', 'blackbody', 'density', 'update-sequence', 'values:integer', 'scalar:numpy-type', 'scalar:integer-values', 'scalar:narrow-float-values', 'same-spectrum:two-units', 'grid:decimal-step', 'grid:huge', 'scalar-on-the-left:nonuniform-grid', 'scalar:boolean-values']
+                    'unit:angstrom', 'unit:mixed', 'scalar', 'vector', 'method:quadratic', 'method:cubic', 'blackbody', 'density', 'update-sequence', 'values:integer', 'scalar:numpy-type', 'scalar:integer-values', 'scalar:narrow-float-values', 'same-spectrum:two-units', 'grid:decimal-step', 'grid:huge', 'scalar-on-the-left:nonuniform-grid', 'scalar:boolean-values', 'grid:line-profile']
 REQUIRED_ANCHORS = ['probe:Spectrum.add', 'probe:Spectrum.subtract', 'probe:Spectrum.multiply', 'probe:Spectrum.divide', 'probe:Spectrum.power', 'anchor:Spectrum._ufunc', 'anchor:_interp_common', 'anchor:_sampling', 'anchor:Spectrum.sample']
 REQUIRED_ORACLES = ['grid', 'value=op(interp)', 'new-object', 'commutative', 'unit-agnostic', 'operands-physically-unchanged',
                     'scalar-elementwise']
@@ -133,9 +133,21 @@ def ufunc_oracle(ctx, args, kwargs, result, exc, pre):
     q = (hi - lo) / dw
     # number of steps = ceil(range / sampling); when that ratio is an integer up to rounding (0.1-steps: 1.0/0.1 = 10.000000000000002)
     # it IS that integer - identical grids are then combined sample by sample, without an extra point
-    near_int = abs(q - round(q)) < 1e-9 * max(1, q)
-    okn = (steps == round(q)) if near_int else (steps == int(np.ceil(q)))
-    uniform = len(g) < 3 or float(np.max(np.abs(np.diff(g) - (hi - lo) / max(steps, 1)))) <= 1e-9 * (hi - lo)
+    # "up to rounding" is up to the rounding of the inputs: the step is a difference of wavelengths and carries eps * lambda / step
+    # relative (1e-8 for picometre steps at a micrometre).  Inside that band the ratio does not say which of the two integers is
+    # meant, so either is accepted - unless the two operands sit on the very same uniform grid, which settles it
+    band = max(1e-9, 16 * np.finfo(float).eps * max(abs(lo), abs(hi)) / dw) * max(1, q)
+    near_int = abs(q - round(q)) < min(band, 0.45)
+    same_grid = (len(sw) == len(ow) and len(sw) > 2 and np.array_equal(sw, ow) and smp in ('min', 'left', 'right')
+                 and float(np.max(np.abs(np.diff(sw) - (sw[-1] - sw[0]) / (len(sw) - 1)))) <= 4 * np.finfo(float).eps * max(abs(lo), abs(hi)))
+    if same_grid:
+        okn = steps == len(sw) - 1
+    elif near_int:
+        okn = steps in (round(q), int(np.ceil(q)))
+    else:
+        okn = steps == int(np.ceil(q))
+    # (uniform to the spacing of the doubles at these wavelengths)
+    uniform = len(g) < 3 or float(np.max(np.abs(np.diff(g) - (hi - lo) / max(steps, 1)))) <= max(1e-9 * (hi - lo), 4 * np.finfo(float).eps * max(abs(lo), abs(hi)))
     # the ends of the union are samples of the operands themselves (same unit): the grid starts and ends on them exactly
     ctx.check(len(g) >= 2 and g[0] == lo and g[-1] == hi and uniform and okn,
               'grid', 'ufunc|grid',
@@ -564,6 +576,25 @@ def workload(ctx, lentil):
                       {'step': step, 'n': [k, len(r.wave)]})
         except Exception as e:
             ctx.check(False, 'grid', f'grid|identical-decimal-grid|raises={type(e).__name__}', str(e), {'step': step})
+    # ---- line profiles: the same identical-grid rule at a resolving power of 1e7 ... 3e8 (picometre steps at a micrometre, a laser
+    # line, heterodyne spectra), in every wavelength unit: the differences of neighbouring wavelengths then carry a relative
+    # rounding error of eps * lambda / step, which is not a reason to add a sample
+    for i in range(max(8, n // 10)):
+        k = int(rng.integers(11, 120))
+        lam0 = float(rng.choice([532.0, 632.8, 852.3, 1064.0, 1550.0, 10600.0]))
+        step = float(rng.choice([1e-4, 2e-4, 5e-4, 1e-3, 2e-3, 5e-5]))
+        u = units[i % 4]
+        f_ = sm.wave_factor('nm', u)
+        w = (lam0 + step * np.arange(k)) * f_ if i % 2 else np.linspace(lam0, lam0 + step * (k - 1), k) * f_
+        v1, v2 = rng.uniform(0.5, 2, size=k), rng.uniform(0.5, 2, size=k)
+        ctx.case({'line-profile-grid': step, 'lambda': lam0, 'n': k, 'unit': u}, ['grid:line-profile'])
+        try:
+            r = R.Spectrum(w.copy(), v1, waveunit=u) * R.Spectrum(w.copy(), v2, waveunit=u)
+            ctx.check(len(r.wave) == k and np.allclose(np.asarray(r.value, float), v1 * v2, rtol=1e-6), 'grid', 'grid|identical-line-profile-grid',
+                      'two spectra on the identical (picometre-step) grid are not combined sample by sample (an extra grid point was added)',
+                      {'step': step, 'lambda': lam0, 'unit': u, 'n': [k, len(r.wave)]})
+        except Exception as e:
+            ctx.check(False, 'grid', f'grid|identical-line-profile-grid|raises={type(e).__name__}', str(e), {'step': step})
     # ---- the same spectrum held in two units (the second copy converted by lentil itself): every sample of the union is
     # defined in both operands, in either order - including the first and the last one
     for i in range(max(8, n // 8)):
